@@ -73,18 +73,25 @@ pub fn tipair_event(raw: [u8; 4]) -> J {
 pub fn msin_event(b: u8) -> J {
     let res = match catch_unwind(AssertUnwindSafe(|| {
         let mt = MessageType::try_from(b);
-        let bytes = message_with_htyp(0x21, b);
-        let parsed = slice::parse_res(&bytes, None, false, false);
-        let (pv, verb, pmt, reenc) = if parsed["v"] == "msg" {
-            let m = crate::unproj::message(&parsed["m"]);
-            let re = crate::gen::ser(&m);
-            ("msg", parsed["m"]["x"][0]["verb"].clone(), parsed["m"]["x"][0]["mt"].clone(), json!(re.get(4).copied().unwrap_or(0)))
-        } else {
-            ("other", json!(false), json!([0, 0]), json!(0))
+        // two messages around the byte: the canonical one (a verbose message without arguments and payload) and one with four payload
+        // bytes whatever the byte says (what a verbose flag on a control message looks like on the wire)
+        let leg = |bytes: &[u8]| -> J {
+            let parsed = slice::parse_res(bytes, None, false, false);
+            if parsed["v"] == "msg" {
+                let m = crate::unproj::message(&parsed["m"]);
+                let re = crate::gen::ser(&m);
+                json!({"pv": "msg", "verb": parsed["m"]["x"][0]["verb"], "pmt": parsed["m"]["x"][0]["mt"], "reenc": re.get(4).copied().unwrap_or(0)})
+            } else {
+                json!({"pv": "other", "verb": false, "pmt": [0, 0], "reenc": 0})
+            }
         };
+        let l1 = leg(&message_with_htyp(0x21, b));
+        let mut with_payload = message_with_htyp(0x21, b & 0xFE);
+        with_payload[4] = b;
+        let l2 = leg(&with_payload);
         match mt {
-            Ok(mt) => json!({"v": "ok", "mt": proj::msg_type(&mt), "reenc_mt": u8::from(&mt), "pv": pv, "verb": verb, "pmt": pmt, "reenc": reenc}),
-            Err(_) => json!({"v": "refused", "mt": [0, 0], "reenc_mt": 0, "pv": pv, "verb": verb, "pmt": pmt, "reenc": reenc}),
+            Ok(mt) => json!({"v": "ok", "mt": proj::msg_type(&mt), "reenc_mt": u8::from(&mt), "pv": l1["pv"], "verb": l1["verb"], "pmt": l1["pmt"], "reenc": l1["reenc"], "leg2": l2}),
+            Err(_) => json!({"v": "refused", "mt": [0, 0], "reenc_mt": 0, "pv": l1["pv"], "verb": l1["verb"], "pmt": l1["pmt"], "reenc": l1["reenc"], "leg2": l2}),
         }
     })) {
         Ok(j) => j,
